@@ -238,7 +238,15 @@ class Verifier:
             # normal exit is only that the path exists and ends normally (recorded, trivially true)
             ip.prove(f'{label}.returns-normally', z3.BoolVal(True))
         for lab, ens in c.ensures:
-            goal = ip.spec_bool(ens, senv, fr.old)
+            try:
+                goal = ip.spec_bool(ens, senv, fr.old)
+            except (EngineError, TypeError) as ex:
+                # the postcondition cannot even be evaluated on what the function returned on this
+                # path (wrong Python type, e.g. an exception object where a list is specified)
+                ip.results.append(Obligation(f'{label}.post.{lab}', 'failed', list(c.props), 0.0, 'typing',
+                                             detail=f'postcondition ill-typed for the returned value: {ex}'))
+                ip.results[-1].path = '/'.join(x or '?' for x in ip.labels[:ip.pos])
+                continue
             if lab in c.kf:
                 # a listed known finding delimits a class of failing inputs: outside the class
                 # the obligation must hold; inside it the failure is reported as KNOWN-FINDING
